@@ -8,6 +8,8 @@ Unlimited == 1000
 ExhUnits == {"prog","sub","mod"}
 ExhCons == {"if","do","dol","selcase","block"}
 NestCons == {"if","do","dol","selcase","block","where"}
+NestCons2 == {"forall","assoc","crit","seltype","doconc"}
+SubMod == {"sub","mod","fun"}
 ExhSpec == {"type"}
 Set12 == {1, 2}
 Set1 == {1}
